@@ -317,6 +317,11 @@ func CorpusFiles() (xgo, gofiles []string) {
 			if fi.Name() == ".git" {
 				return filepath.SkipDir
 			}
+			if p != root { // a nested checkout / scratch worktree is not part of the tree under test
+				if _, err := os.Lstat(filepath.Join(p, ".git")); err == nil {
+					return filepath.SkipDir
+				}
+			}
 			return nil
 		}
 		switch filepath.Ext(p) {
